@@ -4,6 +4,7 @@ package control
 
 import (
 	"fmt"
+	"math/big"
 	"reflect"
 	"strings"
 	"testing"
@@ -77,7 +78,9 @@ func cbSampleValue(k cbKey) (text string, check func(v reflect.Value) bool) {
 		want := !(k.def == "true")
 		return fmt.Sprint(want), func(v reflect.Value) bool { return v.Bool() == want }
 	case k.typ.Kind() == reflect.Slice:
-		return "x1, 'y 2'", func(v reflect.Value) bool { return v.Len() == 2 && v.Index(0).String() == "x1" && v.Index(1).String() == "y 2" }
+		return "x1, 'y 2'", func(v reflect.Value) bool {
+			return v.Len() == 2 && v.Index(0).String() == "x1" && v.Index(1).String() == "y 2"
+		}
 	default:
 		return "4321", func(v reflect.Value) bool { return fmt.Sprint(v.Interface()) == "4321" }
 	}
@@ -199,7 +202,7 @@ func TestVerifC17Build(t *testing.T) {
 			judge(key, strings.Replace(cbBase, "log_level: info", "log_level: info\n  dport(80) -> direct", 1), v.Outcome, nil)
 		case "missing_required_key":
 			judge(key, strings.Replace(cbBase, "policy: min", "", 1), v.Outcome, nil)
-		case "absent_key", "set_key", "wrong_type":
+		case "absent_key", "set_key", "wrong_type", "number_max", "number_over":
 			// every key of the class, as found in the code
 			for _, k := range schema {
 				if cbClass(k) != v.P.Kc {
@@ -247,6 +250,34 @@ func TestVerifC17Build(t *testing.T) {
 					})
 				case "wrong_type":
 					judge(kkey, strings.Replace(cbBase, "log_level: info", k.key+": 'zz top'", 1), v.Outcome, nil)
+				case "number_max", "number_over":
+					// the limit of the field the key is decoded into (its width is read from the code)
+					max := new(big.Int)
+					switch k.typ.Kind() {
+					case reflect.Uint, reflect.Uint8, reflect.Uint16, reflect.Uint32, reflect.Uint64:
+						max.Sub(new(big.Int).Lsh(big.NewInt(1), uint(k.typ.Bits())), big.NewInt(1))
+					case reflect.Int, reflect.Int8, reflect.Int16, reflect.Int32, reflect.Int64:
+						max.Sub(new(big.Int).Lsh(big.NewInt(1), uint(k.typ.Bits()-1)), big.NewInt(1))
+					default:
+						continue
+					}
+					val := new(big.Int).Set(max)
+					if v.P.Op == "number_over" {
+						val.Add(val, big.NewInt(1))
+					}
+					text := strings.Replace(cbBase, "log_level: info", k.key+": "+val.String(), 1)
+					if v.P.Op == "number_max" {
+						if _, verr, vp := cbBuild(text); vp == nil && verr != nil && !strings.Contains(verr.Error(), "unexpected key") && !strings.Contains(verr.Error(), "cannot be convert") {
+							res.Count("value_validated_keys", 1)
+							continue // the option validates its value beyond its type
+						}
+					}
+					judge(kkey, text, v.Outcome, func(c *config.Config) string {
+						if got := fmt.Sprint(reflect.ValueOf(c.Global).Field(k.field).Interface()); got != val.String() {
+							return fmt.Sprintf("key %s written as %s reads back as %s", k.key, val, got)
+						}
+						return ""
+					})
 				}
 			}
 		case "program_size":
